@@ -105,6 +105,7 @@ def scenarios():
         "narrow_copy": lambda: A().narrow_copy(1, 1, 2),
         "movedim": lambda: torch.arange(24, dtype=torch.float32).reshape(2, 3, 4).movedim(0, -1), "swapaxes": lambda: torch.arange(6, dtype=torch.float32).reshape(1, 2, 3).swapaxes(1, 2),
         "flatten_range": lambda: torch.arange(24, dtype=torch.float32).reshape(2, 3, 4).flatten(1, 2), "ravel": lambda: A().T.ravel(), "moveaxis_fn": lambda: torch.moveaxis(A(), 0, 1),
+        "as_strided": lambda: torch.arange(12, dtype=torch.float32)[2:].as_strided((2, 2), (3, 1), 3), "as_strided_default_offset": lambda: torch.arange(12, dtype=torch.float32)[4:10].as_strided((2, 2), (2, 1)),
         "multiply_alias": lambda: torch.multiply(A(), 2.0), "true_divide": lambda: torch.true_divide(A(), 2.0), "abs_inplace": lambda: T([-1.0, 2.0]).abs_(), "eye_argsort_cols": lambda: torch.eye(3)[:, T([3.0, 1.0, 2.0]).argsort(stable=True)],
     }.items():
         rec(nm, lambda f=f: _desc(f()))
@@ -131,7 +132,7 @@ def scenarios():
         "view": lambda t: t.view(3, 2), "view_minus1": lambda t: t.view(-1), "split_dim1": lambda t: torch.split(t, 2, dim=1), "narrow": lambda t: t.narrow(1, 1, 2), "permute": lambda t: t.permute(1, 0),
         "T": lambda t: t.T, "detach": lambda t: t.detach(), "unsqueeze": lambda t: t.unsqueeze(0), "clone": lambda t: t.clone(), "to_same": lambda t: t.to(dtype=torch.float32), "to_f64": lambda t: t.to(dtype=torch.float64),
         "getitem_row": lambda t: t[0], "diagonal": lambda t: torch.diagonal(t[:, :2]), "div_scalar": lambda t: t / 2.0, "foreach_lerp": lambda t: torch._foreach_lerp([t], [t * 2], weight=0.5),
-        "movedim": lambda t: t.movedim(0, -1), "swapaxes": lambda t: t.swapaxes(0, 1), "flatten_contig": lambda t: t.flatten(), "flatten_noncontig": lambda t: t.T.flatten(),
+        "as_strided": lambda t: t.as_strided((2, 2), (3, 1), 1), "movedim": lambda t: t.movedim(0, -1), "swapaxes": lambda t: t.swapaxes(0, 1), "flatten_contig": lambda t: t.flatten(), "flatten_noncontig": lambda t: t.T.flatten(),
         "narrow_copy": lambda t: t.narrow_copy(1, 0, 2), "sub_out_same": lambda t: torch.sub(t, 1.0, out=t), "select": lambda t: t.select(0, 1), "unbind": lambda t: t.unbind(1), "flip": lambda t: t.flip((0,)), "clamp": lambda t: t.clamp(min=2.0), "expand_as_self": lambda t: t.expand(2, 3), "mT": lambda t: t.mT,
         "chunk": lambda t: t.chunk(2, dim=1), "masked_fill": lambda t: t.masked_fill(t > 2.0, 0.0), "index_select": lambda t: t.index_select(0, torch.tensor([1])), "diag_method": lambda t: t[:, :2].diag(),
         "foreach_div": lambda t: torch._foreach_div([t], 2.0), "tensordot": lambda t: torch.tensordot(t, torch.eye(2), dims=([0], [0])), "split_then_view": lambda t: torch.split(t.view(-1), [2, 4])[1].view(2, 2),
